@@ -156,6 +156,14 @@ def listBlocks : Prog (List Str) := do
 /-- `GarbageCollectionLock::is_locked`. -/
 def gcIsLocked : Prog Bool := isFile .gcLock
 
+/-- The second look `backup` takes at the lock (src/backup.rs, right after `Band::create`): list the
+archive directory; locked iff it has a FILE named `GC_LOCK`. -/
+def gcLockListed : Prog Bool := do
+  match ← perform (.listDir .root) with
+  | .listing xs => pure (xs.any fun e => e.key == .gcLock && !e.isDir)
+  | .err e => .fail (.transport e)
+  | _ => .fail (.transport .other)
+
 /-- `GarbageCollectionLock::new`; returns the newest band id seen. -/
 def gcLockNew : Prog (Option Nat) := do
   let last ← lastBandId
